@@ -453,9 +453,9 @@ class C2Http:
 
         # Get the different URIs used by the beacon for matching HTTP requests (note everything is in bytes)
         self.submit_uri: bytes = bconfig.settings["SETTING_SUBMITURI"].encode()
-        self.submit_verb: bytes = bconfig.settings["SETTING_C2_VERB_POST"].encode()
+        self.submit_verb: bytes = bconfig.settings.get("SETTING_C2_VERB_POST", "POST").encode()
         self.get_uris: Tuple[bytes, ...] = tuple(uri.encode() for uri in bconfig.uris)
-        self.get_verb: bytes = bconfig.settings["SETTING_C2_VERB_GET"].encode()
+        self.get_verb: bytes = bconfig.settings.get("SETTING_C2_VERB_GET", "GET").encode()
 
         # Load transform/recover steps from beacon config
         self.transform_submit = HttpDataTransform(steps=bconfig.settings["SETTING_C2_POSTREQ"])
